@@ -31,6 +31,19 @@ pub fn run(ctx: &mut Ctx, prop: &str) {
     }
 }
 
+/// Flush the queued model requests under a tag that is unique to this process: several `check`
+/// runs may share one work directory, and a request file that is being rewritten by another
+/// process while the driver reads it would look like a driver failure.
+fn flush(ctx: &mut Ctx, tag: &str) {
+    let t = format!("{}-p{}", tag, std::process::id());
+    let before = ctx.rep.model_disagreements.len();
+    ctx.flush_model(&t);
+    if ctx.rep.model_disagreements.len() == before {
+        std::fs::remove_file(format!("{}/{}.req", ctx.workdir, t)).ok();
+        std::fs::remove_file(format!("{}/{}.resp", ctx.workdir, t)).ok();
+    }
+}
+
 fn degrees(ctx: &Ctx) -> &'static [usize] {
     if ctx.thorough {
         DEGREES_THOROUGH
@@ -167,7 +180,7 @@ fn c01(ctx: &mut Ctx) {
             }
         }
     }
-    ctx.flush_model("C01-ipa");
+    flush(ctx, "C01-ipa");
 }
 
 // ------------------------------------------------------------------------------------------------
@@ -430,7 +443,7 @@ fn mutation_run(ctx: &mut Ctx, prop: &str, tag: &str, muts: &[M], per_degree: us
             counts(ctx, &c);
         }
     }
-    ctx.flush_model(&format!("{}-ipa-{}", prop, tag));
+    flush(ctx, &format!("{}-ipa-{}", prop, tag));
 }
 
 fn c02(ctx: &mut Ctx) {
@@ -524,7 +537,7 @@ fn d7(ctx: &mut Ctx, prop: &str) {
             ctx.rep.case(&format!("{} d7 small={} big={} check={:?} batch={:?}", c.desc(), small, big, out, outb), Some(format!("ipa/d7/{}/{}/{}", small, big, hid)));
         }
     }
-    ctx.flush_model(&format!("{}-ipa-d7", prop));
+    flush(ctx, &format!("{}-ipa-d7", prop));
 }
 
 /// forged proofs for a false value: the honest prover run on another polynomial against
@@ -574,7 +587,7 @@ fn forged(ctx: &mut Ctx, prop: &str, per_degree: usize) {
             }
         }
     }
-    ctx.flush_model(&format!("{}-ipa-forge", prop));
+    flush(ctx, &format!("{}-ipa-forge", prop));
 }
 
 // ------------------------------------------------------------------------------------------------
@@ -727,7 +740,7 @@ fn batch_runs(ctx: &mut Ctx, prop: &str, per_degree: usize, shapes: bool) {
             counts(ctx, &c);
         }
     }
-    ctx.flush_model(&format!("{}-ipa-batch", prop));
+    flush(ctx, &format!("{}-ipa-batch", prop));
 }
 
 trait NextU32 {
@@ -792,7 +805,7 @@ fn c04(ctx: &mut Ctx) {
             ctx.rep.case(&format!("{} bound={}", c.desc(), d), Some(format!("ipa/every-bound/{}/{}", s, d - deg)));
         }
     }
-    ctx.flush_model("C04-ipa-every-bound");
+    flush(ctx, "C04-ipa-every-bound");
     // admission around every boundary
     let per = ctx.n(10, 40);
     let mut k = 0u64;
@@ -878,7 +891,7 @@ fn c04(ctx: &mut Ctx) {
                 Some(format!("ipa/adm/{}/{}/{:?}/{}", s, deg as i64 - s as i64, bound.map(|b| (b as i64 - deg as i64).signum()), admissible)));
         }
     }
-    ctx.flush_model("C04-ipa-admission");
+    flush(ctx, "C04-ipa-admission");
 }
 
 // ------------------------------------------------------------------------------------------------
@@ -945,7 +958,7 @@ fn c08(ctx: &mut Ctx) {
             ctx.rep.case(&c.desc(), Some(format!("ipa/c08/{}/{}", c.s, v % 2)));
         }
     }
-    ctx.flush_model("C08-ipa");
+    flush(ctx, "C08-ipa");
     let _: Option<(G1Affine, G1Projective, CommitterKey<G1Affine>)> = None;
 }
 
@@ -992,5 +1005,5 @@ fn c19(ctx: &mut Ctx) {
             }
         }
     }
-    ctx.flush_model("C19-ipa");
+    flush(ctx, "C19-ipa");
 }
